@@ -270,6 +270,9 @@ func runCheck(id, tier string, rest []string) int {
 				for _, v := range res[i].Violations {
 					v.Qualified = qn
 				}
+				if w := res[i].NonTermWitness; w != nil {
+					w.Qualified = qn
+				}
 			}
 			for _, u := range st.Units {
 				if f.Pkg != nil && pkgDirOf(l, f.Pkg.Pkg.Path()) == u.PkgDir {
@@ -306,6 +309,9 @@ func runCheck(id, tier string, rest []string) int {
 			inconclusive = append(inconclusive, r.Name+": vacuous (no assertion reached on any feasible path)")
 		}
 		all = append(all, r.Violations...)
+		if r.NonTermWitness != nil {
+			all = append(all, r.NonTermWitness)
+		}
 	}
 	for _, v := range all {
 		key := v.Harness + "/" + v.AssertID
@@ -328,12 +334,44 @@ func runCheck(id, tier string, rest []string) int {
 		outcome := "not-replayed"
 		if v.Kind == "pipeline" {
 			outcome = "pipeline"
+		} else if v.Kind == "unwind" {
+			// a path ran past the loop bound: that is only a hang if the real code does not
+			// come back on these inputs (they are a few dozen bytes; 20 s is generous)
+			outcome = "not-replayed"
+			if u != nil && !*noReplay {
+				// -timeout bounds the test's own run time, not the build before it
+				raw := nativeRunArgs(rep, preludeTest(rep.PkgName), "^TestVHReplay$", "-timeout=20s")
+				if strings.Contains(raw, "test timed out after 20s") {
+					outcome = "timeout"
+				} else {
+					outcome = classifyReplay(raw)
+				}
+			}
+			rep.NativeOutcome = outcome
+			if outcome != "timeout" {
+				// terminated natively: the unwind entry already recorded for the harness stands
+				continue
+			}
+			outcome = "violated terminates (no result within 20 s natively)"
 		} else if u != nil && !*noReplay {
 			outcome = nativeReplay(rep)
+			for try := 0; try < 5 && outcome == "ok"; try++ {
+				// the executor explores every map iteration order, a native run draws one at
+				// random: a counterexample that needs a particular order shows up within a few
+				// runs (any native failure is a real one, so repeating cannot confirm falsely)
+				outcome = nativeReplay(rep)
+			}
 			if strings.Contains(outcome, "symbolic only") {
 				// the harness drives code that Go source cannot reach (an anonymous closure):
 				// confirm against the real program instead
 				outcome = confirmSpecial(id, v)
+			}
+			if outcome == "ok" && strings.Contains(v.Detail, "write to pre-existing object") {
+				// a write that stores the value already there is invisible to the value
+				// comparison of the native write-set stand-in: ask the race detector
+				if rc := nativeRaceConfirm(rep); rc != "" {
+					outcome = rc
+				}
 			}
 		}
 		rep.NativeOutcome = outcome
